@@ -162,7 +162,9 @@ reset:
 				// when channel is closing, it is sending an empty block with num = 0, and empty hash
 				// because it is not passing object by reference, but by value, so do not handle that since it is closing
 				d.log.Debugf("handleNewBlock, blockNum: %d, blockHash: %s", b.Num, b.Hash)
-				d.handleNewBlock(ctx, cancel, b)
+				if reorgHandled := d.handleNewBlock(ctx, cancel, b); reorgHandled {
+					goto reset
+				}
 			}
 		case firstReorgedBlock := <-d.reorgSub.ReorgedBlock:
 			d.log.Debug("handleReorg from block: ", firstReorgedBlock)
@@ -172,7 +174,12 @@ reset:
 	}
 }
 
-func (d *EVMDriver) handleNewBlock(ctx context.Context, cancel context.CancelFunc, b EVMBlock) {
+// handleNewBlock tracks and processes the block, retrying on errors. While it retries it keeps
+// listening to the reorg detector: a block that cannot be processed because it was downloaded on top
+// of blocks that have been reorged meanwhile would otherwise be retried for ever, and the reorg that
+// resolves the situation would never be handled. It returns true if a reorg has been handled (the
+// block is dropped and the caller has to restart the sync from the last processed block).
+func (d *EVMDriver) handleNewBlock(ctx context.Context, cancel context.CancelFunc, b EVMBlock) (reorgHandled bool) {
 	attempts := 0
 	succeed := false
 	for {
@@ -180,7 +187,11 @@ func (d *EVMDriver) handleNewBlock(ctx context.Context, cancel context.CancelFun
 		case <-ctx.Done():
 			// If the context is canceled, exit the function
 			d.log.Warnf("context canceled while adding block %d to tracker", b.Num)
-			return
+			return false
+		case firstReorgedBlock := <-d.reorgSub.ReorgedBlock:
+			d.log.Debugf("handleReorg from block %d while adding block %d to tracker", firstReorgedBlock, b.Num)
+			d.handleReorg(ctx, cancel, firstReorgedBlock)
+			return true
 		default:
 			if !b.IsFinalizedBlock {
 				err := d.reorgDetector.AddBlockToTrack(ctx, d.reorgDetectorID, b.Num, b.Hash)
@@ -206,7 +217,11 @@ func (d *EVMDriver) handleNewBlock(ctx context.Context, cancel context.CancelFun
 		case <-ctx.Done():
 			// If the context is canceled, exit the function
 			d.log.Warnf("context canceled while processing block %d", b.Num)
-			return
+			return false
+		case firstReorgedBlock := <-d.reorgSub.ReorgedBlock:
+			d.log.Debugf("handleReorg from block %d while processing block %d", firstReorgedBlock, b.Num)
+			d.handleReorg(ctx, cancel, firstReorgedBlock)
+			return true
 		default:
 			blockToProcess := Block{
 				Num:    b.Num,
@@ -218,7 +233,7 @@ func (d *EVMDriver) handleNewBlock(ctx context.Context, cancel context.CancelFun
 				if errors.Is(err, ErrInconsistentState) {
 					d.log.Warn("state got inconsistent after processing this block. Stopping downloader until there is a reorg")
 					cancel()
-					return
+					return false
 				}
 				attempts++
 				d.log.Errorf("error processing events for block %d, err: %v", b.Num, err)
@@ -231,6 +246,7 @@ func (d *EVMDriver) handleNewBlock(ctx context.Context, cancel context.CancelFun
 			break
 		}
 	}
+	return false
 }
 
 func (d *EVMDriver) handleReorg(ctx context.Context, cancel context.CancelFunc, firstReorgedBlock uint64) {
